@@ -62,9 +62,11 @@ def opts_kw(o):
 class GenRunner:
     """One real generator, advanced one `next()` at a time, recording events."""
 
-    def __init__(self, defn, root, o, skip, data, cap=None):
+    def __init__(self, defn, root, o, skip, data, cap=None, show_progress=False):
         self.defn, self.root = defn, root
-        self.gen = defn.packet_generator(io.BytesIO(data), root_container_name=root, skip_header_bytes=skip, **opts_kw(o))
+        extra = {"show_progress": True} if show_progress else {}
+        self.gen = defn.packet_generator(io.BytesIO(data), root_container_name=root, skip_header_bytes=skip, **opts_kw(o),
+                                         **extra)
         self.events = []
         self.done = False
         self.cap = (len(data) // 7 + 3) if cap is None else cap
@@ -145,6 +147,14 @@ def run_gen(line):
     r.drain()
     if sx(xser.definition(defn)) != before:
         return "err definition-mutated"
+    if len(data) <= 600:
+        # a display option changes nothing that is yielded, warned about or raised (the display itself is discarded)
+        import contextlib
+        r2 = GenRunner(defn, root, t[3], int(t[4]), data, show_progress=True)
+        with contextlib.redirect_stdout(io.StringIO()), contextlib.redirect_stderr(io.StringIO()):
+            r2.drain()
+        if r2.events != r.events:
+            return "events" + "".join(" " + e for e in r.events) + " show_progress-changes-events"
     return "events" + "".join(" " + e for e in r.events)
 
 
